@@ -261,6 +261,8 @@ func (w *worker) runSession() {
 		w.modeRepeat()
 	case "longpairs":
 		w.modeLongPairs()
+	case "solo":
+		w.modeSolo()
 	case "rand":
 		for i := 0; i < s.Runs && !w.stop; i++ {
 			seed := simrt.Mix(s.Seed, uint64(s.Worker), uint64(i))
@@ -740,6 +742,30 @@ func (w *worker) modeLongPairs() {
 			pol = simrt.Policy{Kind: []string{"seq", "walk", "rr", "pct"}[k%4], P: 0.02, Quantum: 7, Depth: 3, PoolMode: "lifo", TimerP: 0.01}
 		}
 		spec := &simrt.RunSpec{Seed: simrt.Mix(w.ses.Seed, uint64(k), 5), Tasks: [][]simrt.Call{calls}, Policy: pol, Est: est + 64}
+		w.execRun(spec, nil, false)
+	}
+}
+
+// modeSolo: one caller, one call, several seeded policies: the interleavings
+// of the library's OWN goroutines (worker pools, helpers, timers) with the
+// caller. Index k in [From,To) enumerates inputs(>=500 B) x 2 APIs x 6 policies.
+func (w *worker) modeSolo() {
+	var idx []int32
+	for i, in := range w.c.In {
+		if len(in) >= 500 {
+			idx = append(idx, int32(i))
+		}
+	}
+	pols := []simrt.Policy{
+		{Kind: "walk", P: 0.01}, {Kind: "walk", P: 0.1}, {Kind: "pct", Depth: 3}, {Kind: "pct", Depth: 5}, {Kind: "rr", Quantum: 3}, {Kind: "sync", P: 0.5},
+	}
+	for k := w.ses.From; k < w.ses.To && !w.stop; k++ {
+		in := idx[(k/12)%len(idx)]
+		api := uint8((k / 6) & 1)
+		pol := pols[k%6]
+		pol.PoolMode, pol.TimerP = "lifo", 0.005
+		calls := []simrt.Call{{API: api, Idx: in, Input: w.c.In[in]}}
+		spec := &simrt.RunSpec{Seed: simrt.Mix(w.ses.Seed, uint64(k), 11), Tasks: [][]simrt.Call{calls}, Policy: pol, Est: w.c.Steps[api][in] + 64}
 		w.execRun(spec, nil, false)
 	}
 }
